@@ -12,6 +12,7 @@ mod s_packets;
 mod mock;
 mod s_links;
 mod s_proto;
+mod s_e2e;
 
 #[global_allocator]
 static ALLOC: mock::Counting = mock::Counting;
@@ -54,6 +55,7 @@ fn main() {
                 "SND" => s_links::gen_snd(&mut r, thorough, &mut cx),
                 "PRO" => s_proto::gen_pro(&mut r, thorough, &mut cx),
                 "EXC" => s_proto::gen_exc(&mut r, thorough, &mut cx),
+                "E2E" => s_e2e::gen_e2e(&mut r, thorough, &mut cx),
                 s => { eprintln!("unknown stream {}", s); std::process::exit(2); }
             }
         }
@@ -74,6 +76,7 @@ fn main() {
                 "SND" => s_links::exec_snd,
                 "PRO" => s_proto::exec_pro,
                 "EXC" => s_proto::exec_exc,
+                "E2E" => s_e2e::exec_e2e,
                 s => { eprintln!("unknown stream {}", s); std::process::exit(2); }
             };
             let stdin = std::io::stdin();
